@@ -120,7 +120,7 @@ def check_C03(ctx, rep):
 
 def check_C04(ctx, rep):
     rep.clauses_decided += ['placeholder blocks never become states (R-SLOT)', 'refinement loops stop only at a stable partition and every change is registered (R-WORK W5, Hopcroft sub-template)',
-                            'input DFA unchanged (R-EFFECT)']
+                            'input DFA unchanged (R-EFFECT)', 'a state joins / a block is named after a comparison with a representative of that same block (R-WORK.rep)']
     rep.not_decided += ['that the stable partition is the Myhill-Nerode partition; equivalence of the result; independence of the language from the choice order']
     if not work.check_flag_fixpoint(ctx, rep, ctx.prog.func('dfa_algorithms.dfa_minimize')):
         raise AnalysisError('table-filling flag loop vanished')
@@ -128,6 +128,8 @@ def check_C04(ctx, rep):
         raise AnalysisError('quotient refinement loop vanished')
     _worklists_in(ctx, rep, ['dfa_algorithms.dfa_hopfcroft'])
     mins = F(ctx, 'dfa_algorithms.dfa_minimize', 'dfa_algorithms.dfa_quotient', 'dfa_algorithms.dfa_hopfcroft')
+    if sum(work.check_representatives(ctx, rep, m) for m in mins) < 2:
+        raise AnalysisError('fewer than 2 uses of block representatives found in the minimisers')
     work.check_one_shot_iterators(ctx, rep, mins)
     misc.check_minimiser_siblings(ctx, rep, mins)
     order.check_independence(ctx, rep, mins + F(ctx, 'dfa_algorithms.dfa_from_table'), must=False)
@@ -255,7 +257,8 @@ def check_C08(ctx, rep):
     rep.not_decided += ['language preservation and postcondition establishment of each phase']
     _twins(ctx, rep, ['cfg_to_chomsky', 'cfg_remove_epsilon_rules', 'cfg_eliminate_unit_rules', 'cfg_add_new_start_variable',
                       'cfg_make_rules_of_length_two', 'cfg_eliminate_terminals'])
-    if not work.check_flag_fixpoint(ctx, rep, ctx.prog.func('cfg_algorithms.cfg_nullable_variables')):
+    nf = ctx.prog.func('cfg_algorithms.cfg_nullable_variables')
+    if not (work.check_flag_fixpoint(ctx, rep, nf) + work.check_size_fixpoint(ctx, rep, nf)):
         raise AnalysisError('nullable fixpoint loop vanished')
     if not work.check_snapshot_fixpoint(ctx, rep, ctx.prog.func('cfg_algorithms.cfg_derivable_variables')):
         raise AnalysisError('unit-closure fixpoint loop vanished')
